@@ -497,7 +497,10 @@ fn exec(op: &str, args: &[&str], expected: &str) -> Option<Verdict> {
                 show_list(&z.get_elements().unwrap().iter().map(|t| format!("{}/{}", t.0, t.1)).collect::<Vec<_>>())))), expected)), n)
         }
         "unary" => exec_unary(args, expected),
-        "frexp" | "ldexp" | "roundtrip" => exec_float(op, args, expected),
+        "frexp" => exec_float(op, args, expected),
+        // ldexp pairs the mantissas with the exponents through `zip`, i.e. through the broadcasting layer, which refuses zero-length
+        // axes by design: the same open region as `zip` / rint / round / log on arrays without elements (C03's question)
+        "ldexp" | "roundtrip" => { let n = parse_bits_arr(args.get(1)?)?.1.len(); open_if_empty(exec_float(op, args, expected), n) }
         _ => None,
     }
 }
